@@ -74,6 +74,7 @@ theorem bInv_step (s : St) (st : Step) (hs : SegsOK s.segs) (h : BInv s) (hp : B
     rw [durLen_updNonLast id (fun sg => { sg with walFile := false }) (fun _ => rfl),
       allRecs_updNonLast id (fun sg => { sg with walFile := false }) (fun _ => rfl)]; exact h
   | accept _ _ => exact h
+  | resume _ _ => exact h
   | vCreate => exact h
   | vAppend _ => exact h
   | headLog => exact h
